@@ -49,6 +49,22 @@ action view, edit in [readWrite] appliesTo { principal: U, resource: Doc, contex
 action "delete" appliesTo { principal: U, resource: Doc, context: { n: Long, override?: { by: U } } };
 `
 
+func bigSet(n int) types.Set {
+	vs := make([]types.Value, n)
+	for i := range vs {
+		vs[i] = types.Long(int64(i - 3))
+	}
+	return types.NewSet(vs...)
+}
+
+func bigRecord(n int) types.RecordMap {
+	m := types.RecordMap{}
+	for i := 0; i < n; i++ {
+		m[types.String(fmt.Sprintf("k%d", i))] = types.NewSet(types.Long(int64(i)), types.String("x"))
+	}
+	return m
+}
+
 type shared struct {
 	breq  batch.Request
 	base  uint64
@@ -88,6 +104,7 @@ func newShared() (*shared, error) {
 	s.vals = []types.Value{
 		types.NewSet(types.Long(1), types.True, types.NewSet(types.Long(1)), types.String("a")),
 		types.NewRecord(types.RecordMap{"b": types.NewSet(types.Long(-1)), "a": types.NewRecord(types.RecordMap{"x": types.Long(1)})}),
+		bigSet(70), types.NewRecord(bigRecord(70)), // sizes beyond the thresholds at which a lazily built index or memo would pay off
 	}
 	var sc schema.Schema
 	if err := sc.UnmarshalCedar([]byte(schemaText)); err != nil {
